@@ -206,10 +206,13 @@ class Gen:
         if r < 0.86:
             exc = self.rng.choice(["ValueError", "KeyError", "(ValueError, TypeError)"])
             body = self.block(depth + 1)
+            bare = self.rng.random() < 0.2
             if self.rng.random() < 0.5:
                 body += ['raise ValueError("v%d")' % self.tick()]
+            elif bare and self.rng.random() < 0.7:
+                # a bare except must also catch exceptions that are not Exception subclasses
+                body += [self.rng.choice(["raise KeyboardInterrupt()", "raise SystemExit(3)", "raise GeneratorExit()"])]
             out = ["try:"] + self.ind(body)
-            bare = w and self.rng.random() < 0.2
             out += ["except:" if bare else "except %s as e:" % exc] + self.ind(self.block(depth + 1, 1))
             if self.rng.random() < 0.3:
                 out += ["else:"] + self.ind(self.block(depth + 1, 1))
